@@ -4,6 +4,7 @@ prints one canonical result line (and a state line) per command.
 -/
 import SC.Proto
 import SC.Buffer
+import SC.FS
 open SC SC.Proto
 
 structure Drv where
@@ -186,9 +187,50 @@ def stepL1 (d : Drv) (toks : List String) : Drv × List String :=
     | _, _ => (d, ["bad-op"])
   | _ => (d, ["bad-op"])
 
+
+/-! ### L4 queries (one output line each) -/
+
+def showFsOp : FS.FsOp → String
+  | .openTrunc p => s!"open {p}"
+  | .write p bs => s!"write {p} {bs.length}"
+  | .close p => s!"close {p}"
+  | .replace a b => s!"replace {a} {b}"
+  | .stat p => s!"stat {p}"
+
+/-- classify the content of `target` in a crash state relative to old / new content -/
+def classify (old new : Option FS.Bytes) (cur : Option FS.Bytes) : String :=
+  if cur == new then "new"
+  else if cur == old then "old"
+  else match cur with
+    | none => "missing"
+    | some [] => "empty"
+    | some b => s!"prefix{b.length}"
+
+def fsQuery (toks : List String) : String :=
+  let nats := toks.filterMap String.toNat?
+  match toks, nats with
+  | "save" :: _, [atomic, encOk, target, tmp, len] =>
+    let ops := FS.saveProgram (atomic == 1) target tmp (if encOk == 1 then some (List.range len) else none)
+    "ops: " ++ "; ".intercalate (ops.map showFsOp)
+  | "crash" :: _, [atomic, target, tmp, len, oldlen] =>
+    -- old content: `oldlen` zeros (absent when oldlen = 0); new content: 1..len
+    let old : Option FS.Bytes := if oldlen == 0 then none else some (List.replicate oldlen 0)
+    let blob : FS.Bytes := (List.range len).map (· + 1)
+    let d : FS.Disk := ⟨match old with | some b => [(target, b)] | none => [], []⟩
+    let cs := FS.crashContents d (FS.saveSteps (atomic == 1) target tmp blob) target
+    let cls := (cs.map (fun x => classify old (some blob) x)).eraseDups
+    "outcomes: " ++ " ".intercalate ((cls.toArray.qsort (· < ·)).toList)
+  | "flush" :: _, atomic :: rest =>
+    let rec items : List Nat → List FS.FlushItem
+      | t :: tmp :: len :: more => ⟨t, tmp, List.range len⟩ :: items more
+      | _ => []
+    "ops: " ++ "; ".intercalate ((FS.flushSteps (atomic == 1) (items rest)).map showFsOp)
+  | _, _ => "bad-query"
+
 def step (d : Drv) (line : String) : Drv × List String :=
   let toks := (line.splitOn " ").filter (· ≠ "")
   match d.bst, toks with
+  | _, "fs" :: rest => (d, [fsQuery rest])
   | some b, t :: ts =>
     if t == "reset" || t == "breset" || t == "flt" || t == "fam" || t == "#" then stepL1 d toks
     else bstep d b (t :: ts)
